@@ -168,6 +168,7 @@ func c18Active(e *Env) {
 		return constInt(info, call.Args[0])
 	}
 	var goLit *ast.FuncLit
+	var goDecl *core.FuncInfo // when the goroutine runs a declared function instead of a literal
 	nGo := 0
 	// an accepted connection is counted before anything else runs for it: between a successful
 	// Accept and updateActive(+1) there is no call into user callbacks or other module code
@@ -215,11 +216,22 @@ func c18Active(e *Env) {
 		},
 		Node: func(c *esp.Ctx, n ast.Node) {
 			if g, ok := n.(*ast.GoStmt); ok {
-				if _, ok := g.Call.Fun.(*ast.FuncLit); ok && (c.S.TS == "accepted" || c.S.TS == "accepted?") {
+				// the goroutine body: a function literal, or a declared function/method of the module
+				fl, isLit := g.Call.Fun.(*ast.FuncLit)
+				var gd *core.FuncInfo
+				if !isLit {
+					if d := w.DeclOf(calleeOf(info, g.Call)); d != nil && d.Decl.Body != nil && d.Pkg == serve.Pkg {
+						gd = d
+					}
+				}
+				if !isLit && gd == nil {
+					return
+				}
+				if c.S.TS == "accepted" || c.S.TS == "accepted?" {
 					c.Violate(g.Pos(), fname+":goroutine-uncounted", "the connection goroutine is started for a connection that was never counted active")
 				}
-				if fl, ok := g.Call.Fun.(*ast.FuncLit); ok && c.S.TS == "counted" {
-					goLit = fl
+				if c.S.TS == "counted" {
+					goLit, goDecl = fl, gd
 					nGo++
 					c.S.TS = "idle"
 				}
@@ -240,12 +252,20 @@ func c18Active(e *Env) {
 	if len(vs) == 0 {
 		r.OK(rule, fname+":accept-loop", w.Pos(serve.Decl.Pos()), "counted connections always reach their goroutine")
 	}
-	if goLit == nil {
-		r.Fail(rule, fname+":goroutine", w.Pos(serve.Decl.Pos()), "the connection goroutine is a function literal started after updateActive(+1)", "no `go func(…){…}` following updateActive(1) found")
+	if goLit == nil && goDecl == nil {
+		r.Fail(rule, fname+":goroutine", w.Pos(serve.Decl.Pos()), "the connection goroutine is started after updateActive(+1)", "no `go func(…){…}` / `go method(…)` following updateActive(1) found")
 		return
 	}
-	// the literal: every exit passes updateActive(-1) exactly once
-	lit := &core.FuncInfo{Obj: serve.Obj, Pkg: serve.Pkg, Decl: &ast.FuncDecl{Name: ast.NewIdent("conn-goroutine"), Type: goLit.Type, Body: goLit.Body}}
+	// the goroutine body: every exit passes updateActive(-1) exactly once
+	var lit *core.FuncInfo
+	goPos := serve.Decl.Pos()
+	if goLit != nil {
+		lit = &core.FuncInfo{Obj: serve.Obj, Pkg: serve.Pkg, Decl: &ast.FuncDecl{Name: ast.NewIdent("conn-goroutine"), Type: goLit.Type, Body: goLit.Body}}
+		goPos = goLit.Pos()
+	} else {
+		lit = goDecl
+		goPos = goDecl.Decl.Pos()
+	}
 	rl2 := &esp.Rule{Name: rule, Init: "in",
 		Call: func(c *esp.Ctx, call *ast.CallExpr, f *types.Func) {
 			if d, ok := delta(call); ok && d == -1 {
@@ -267,7 +287,7 @@ func c18Active(e *Env) {
 		r.Fail(rule, v.Key, w.Pos(v.Pos), "the connection goroutine counts itself out on every exit", v.Msg, v.Path...)
 	}
 	if len(vs2) == 0 {
-		r.OK(rule, fname+"$go:paths", w.Pos(goLit.Pos()), fmt.Sprintf("updateActive(-1) on all %d exits of the connection goroutine", ex2.Exits))
+		r.OK(rule, fname+"$go:paths", w.Pos(goPos), fmt.Sprintf("updateActive(-1) on all %d exits of the connection goroutine", ex2.Exits))
 	}
 }
 
